@@ -48,6 +48,22 @@ _sbx = None
 
 
 _WARM_RESIDUE: list = []
+_STD0: dict = {}
+_families: dict[str, list[str]] = {}
+_FAMILY = {"xlt": "xls", "pps": "ppt", "pot": "ppt", "dot": "doc", "docm": "docx", "dotx": "docx", "dotm": "docx", "xlsm": "xlsx", "xltx": "xlsx", "pptm": "pptx",
+           "ppsx": "pptx", "ott": "odt", "ots": "ods", "otp": "odp", "odg": "odp", "odf": "odt", "htm": "html", "mhtml": "html", "mht": "html", "msg": "eml",
+           "mbox": "eml", "tar": "zip", "gz": "zip", "tgz": "zip", "bz2": "zip", "xz": "zip", "7z": "zip", "tsv": "csv", "md": "txt", "json": "txt"}
+
+
+def _family_of(n: str) -> str:
+    e = n.rsplit(".", 1)[-1].lower()
+    return _FAMILY.get(e, e)
+
+
+def _remember_std():
+    import warnings
+    _STD0.update({"stdout": sys.stdout, "stderr": sys.stderr, "stdin": sys.stdin, "excepthook": sys.excepthook, "displayhook": sys.displayhook,
+                  "threading.excepthook": threading.excepthook, "warnings.showwarning": warnings.showwarning})
 
 
 def _interp_settings():
@@ -93,8 +109,72 @@ def _aes_variants(p):
     return out
 
 
+def _patch_picture_dims(b: bytearray, start: int, end: int) -> int:
+    """change the pixel dimensions recorded late in a JPEG (first SOF segment) / in a PNG IHDR inside b[start:end]; returns pictures changed"""
+    import struct
+    import zlib
+    n = 0
+    i = b.find(b"\xff\xd8\xff", start, end)
+    while i >= 0 and n < 8:
+        j = i + 2
+        while j + 9 < end and b[j] == 0xFF:
+            mk = b[j + 1]
+            if mk in (0xC0, 0xC1, 0xC2):
+                h, w = struct.unpack_from(">HH", b, j + 5)
+                struct.pack_into(">HH", b, j + 5, max(1, h // 2 + 1), max(1, w // 2 + 3))
+                n += 1
+                break
+            if mk == 0xD8 or 0xD0 <= mk <= 0xD7 or mk == 0x01:
+                j += 2
+                continue
+            j += 2 + struct.unpack_from(">H", b, j + 2)[0]
+        i = b.find(b"\xff\xd8\xff", i + 3, end)
+    i = b.find(b"\x89PNG\r\n\x1a\n\x00\x00\x00\rIHDR", start, end)
+    while i >= 0 and n < 16:
+        w, h = struct.unpack_from(">II", b, i + 16)
+        struct.pack_into(">II", b, i + 16, max(1, w // 2 + 3), max(1, h // 2 + 1))
+        struct.pack_into(">I", b, i + 29, zlib.crc32(bytes(b[i + 12:i + 29])) & 0xFFFFFFFF)
+        n += 1
+        i = b.find(b"\x89PNG\r\n\x1a\n\x00\x00\x00\rIHDR", i + 8, end)
+    return n
+
+
+def _near_duplicate(name: str, data: bytes):
+    """the same document with only the recorded size of its embedded pictures changed (bytes that differ sit past the picture's
+    leading bytes): memo tables keyed on a name, a length or a prefix of the content give the earlier document's answer"""
+    import zipfile
+    if data[:4] == b"PK\x03\x04":
+        try:
+            zin = zipfile.ZipFile(io.BytesIO(data))
+            out = io.BytesIO()
+            n = 0
+            with zipfile.ZipFile(out, "w", zipfile.ZIP_DEFLATED) as zo:
+                for zi in zin.infolist():
+                    payload = zin.read(zi)
+                    if zi.filename.lower().endswith((".jpg", ".jpeg", ".png")):
+                        b = bytearray(payload)
+                        n += _patch_picture_dims(b, 0, len(b))
+                        payload = bytes(b)
+                    z2 = zipfile.ZipInfo(zi.filename, date_time=zi.date_time)
+                    z2.compress_type = zi.compress_type
+                    z2.external_attr = zi.external_attr
+                    zo.writestr(z2, payload)
+            return out.getvalue() if n else None
+        except Exception:
+            return None
+    if data[:8] == b"\xd0\xcf\x11\xe0\xa1\xb1\x1a\xe1":
+        b = bytearray(data)
+        return bytes(b) if _patch_picture_dims(b, 512, len(b)) else None
+    return None
+
+
 def _variants(docs):
     out = {}
+    for n in sorted(docs):
+        if len(docs[n]) < 600_000 and n.rsplit(".", 1)[-1].lower() in ("ppt", "xls", "doc", "docx", "pptx", "xlsx", "odt", "odp", "ods", "epub"):
+            d = _near_duplicate(n, docs[n])
+            if d and d != docs[n]:
+                out["var/neardup-" + os.path.basename(n)] = d
     w = docs.get("fx/pdf/wirecard-annual-report-2018-page190.pdf")
     if w:
         out["var/wirecard-trunc.pdf"] = w[: len(w) * 2 // 3]
@@ -141,7 +221,14 @@ def warm():
               "gen/a.html", "gen/b.html", "gen/c.html", "gen/deeper.html", "gen/hebrew.html", "fx/html/large_complex.html", "fx/modern_ms/thesis-template.docx", "gen/a.mhtml", "gen/ragged.xlsx", "gen/a.docx",
               "var/macosx.zip", "var/plain.zip", "var/macosx.tar", "var/corrupt36.7z", "var/corrupt40.7z", "var/corrupt60.7z"]
     others += [n for n in docs if n.startswith("var/corrupt") and n not in others]
+    # ... and every other corpus document of moderate size (all formats take part in histories and thread mixes)
+    others += [n for n in sorted(docs) if n not in others and not n.endswith(".pdf") and len(docs[n]) < 400_000
+               and not n.startswith(("gen/deep", "gen/deeper")) and "password" not in n]
     _pool = _pdfs + [o for o in others if o in docs]
+    _families.clear()
+    for n in _pool:
+        if not n.endswith(".pdf"):
+            _families.setdefault(_family_of(n), []).append(n)
     # isolated baselines: one extraction per fork, taken BEFORE anything was extracted in this process
     jobs = [(n, {"name": n}) for n in _pool]
     for tag, _p, rec in K.run_forked(jobs, lambda p: {"d": _extract_digest(p["name"], _docs[p["name"]])}, run_timeout=120):
@@ -176,6 +263,28 @@ def warm():
             continue
         for co in S.code_objects_of(m):
             if id(co) not in seen:
+                seen.add(id(co))
+                _call_codes.append(co)
+    # entry points of the dependencies: where package code hands control to third-party code (and may be inside a
+    # context manager / patched region of its own while it does) a real thread can be pre-empted too
+    for modname, attrs in (("xlrd", ["open_workbook"]), ("xlrd.book", ["open_workbook_xls"]), ("olefile", ["OleFileIO.__init__", "OleFileIO.openstream", "isOleFile"]),
+                           ("openpyxl.reader.excel", ["load_workbook"]), ("zipfile", ["ZipFile.__init__", "ZipFile.open", "ZipFile.read"]),
+                           ("tarfile", ["TarFile.open", "TarFile.extractfile"]), ("pypdf", ["PdfReader.__init__"]), ("mailparser", ["parse_from_bytes", "parse_from_string"]),
+                           ("defusedxml.ElementTree", ["fromstring", "parse", "iterparse"]), ("xml.etree.ElementTree", ["fromstring", "parse", "iterparse"]),
+                           ("mimetypes", ["guess_type", "add_type"])):
+        try:
+            m = importlib.import_module(modname)
+        except Exception:
+            continue
+        for a in attrs:
+            f = m
+            for part in a.split("."):
+                f = getattr(f, part, None)
+                if f is None:
+                    break
+            f = getattr(f, "__func__", f)
+            co = getattr(f, "__code__", None)
+            if co is not None and id(co) not in seen:
                 seen.add(id(co))
                 _call_codes.append(co)
     from sharepoint2text.parsing.extractors.pdf import pdf_extractor as pe
@@ -228,13 +337,25 @@ def gen_case(rng: random.Random, tier: str) -> dict:
         case = {"mode": "section_enum", "tasks": tasks, "sched_seed": rng.randrange(1 << 40), "p_call": 0.0, "p_line": 0.0,
                 "line_granularity": False, "inject": None, "schedule": None, "sec_switch": sorted(rng.sample(range(0, 70), nsw))}
         return case
+    fam = None
+    if mode in ("threads", "sequential") and _families and rng.random() < 0.4:
+        # every task works on documents of one format family (they share that format's module-level state), near-duplicates together
+        fam = rng.choice(sorted(_families))
+        members = _families[fam]
+
+        def pick():  # noqa: F811
+            n = rng.choice(members)
+            twin = "var/neardup-" + os.path.basename(n)
+            if twin in _docs and twin in members and rng.random() < 0.5:
+                return rng.choice([n, twin])
+            return n
     if mode == "sequential":
         tasks = [[pick() for _ in range(rng.randrange(2, 9))]]
     else:
         k = rng.choice([2, 2, 3, 3, 4])
         tasks = [[pick() for _ in range(rng.choice([1, 1, 2, 3]))] for _ in range(k)]
     case = {"mode": mode, "tasks": tasks, "sched_seed": rng.randrange(1 << 40),
-            "p_call": rng.choice([1 / 20, 1 / 100, 1 / 500, 1 / 2000, 0.0]),
+            "p_call": rng.choice([1 / 20, 1 / 100, 1 / 500, 1 / 2000, 0.0]) if fam is None else rng.choice([1 / 2, 1 / 5, 1 / 20, 1 / 100]),
             "p_line": rng.choice([1 / 2, 1 / 3, 1 / 8, 1 / 30]),
             "line_granularity": tier == "thorough" and rng.random() < 0.3,
             "inject": None, "schedule": None}
@@ -312,7 +433,16 @@ def _env_state():
     import logging
     import warnings
     cfg = ae._config
+    import locale
+    import signal
+    um = os.umask(0o22)
+    os.umask(um)
     return {
+        "std_streams_and_hooks": [n for n, cur in (("stdout", sys.stdout), ("stderr", sys.stderr), ("stdin", sys.stdin), ("excepthook", sys.excepthook),
+                                                   ("displayhook", sys.displayhook), ("threading.excepthook", threading.excepthook),
+                                                   ("warnings.showwarning", warnings.showwarning)) if cur is not _STD0.get(n)],
+        "locale": locale.setlocale(locale.LC_ALL), "umask": um, "gc_enabled": __import__("gc").isenabled(),
+        "signal_handlers": [repr(signal.getsignal(sg)) for sg in (signal.SIGINT, signal.SIGTERM, signal.SIGALRM, signal.SIGPIPE)],
         "archive_config": repr(cfg),
         "sys_path": list(sys.path),
         "environ": hashlib.sha1(repr(sorted(os.environ.items())).encode()).hexdigest(),
@@ -458,6 +588,7 @@ def run_case(case: dict) -> dict:
 
     gc.collect()
     before = _snapshot()
+    _remember_std()
     env_before = _env_state()
     ins = S.Instrument(sched)
     call_codes = _call_codes
